@@ -293,7 +293,7 @@ impl Check for C14 {
     }
     fn rule(&self) -> String {
         format!(
-            "corpus: the {} sample projects; gen: generated legal projects of 1-5 packages (projgen: DAG of Main + libs, structs, plain and generic enums, traits with impls in the trait's or the type's package, inherent impls, plain, generic and trait-bounded functions called across packages, several files per package); broken: the same with one text replacement (type, keyword, path, operator) in one file. Per project: whole-program compile vs, for EVERY topological order of the discovered package graph (at most {MAX_ORDERS}, thinned evenly beyond), build_package of each package against the interface files written so far, artifacts written as JSON files, read_core of every core file, link_cores. Oracle: no panic; all orders agree on acceptance; whole-program accepted <=> separate accepted; in the first order check_package's interface JSON == build_package's interface JSON for every package (and check accepts iff build's typer accepts); linked Go text identical for all orders; stdout and end state of the two Go programs under miniGo equal (Go rejected on both sides is left to C02). Non-trivial = >= 2 library packages and a cross-package generic or trait call and both programs ran; distinct by hash of the files.",
+            "corpus: the {} sample projects; gen: generated legal projects of 1-5 packages (projgen: DAG of Main + libs, structs, plain and generic enums, traits with impls in the trait's or the type's package, inherent impls, plain, generic and trait-bounded functions called across packages, several files per package); (libraries may consist of declarations only; a quarter of the projects print float literals of 12-17 digits from main); broken: the same with one text replacement (type, keyword, path, operator) in one file or an appended function with a compile-stage error (integer match without catch-all); defect: the same with one of the isolation/coherence defects of C16 injected. Per project: whole-program compile vs, for EVERY topological order of the discovered package graph (at most {MAX_ORDERS}, thinned evenly beyond), build_package of each package against the interface files written so far, artifacts written as JSON files, read_core of every core file, link_cores. Oracle: no panic; all orders agree on acceptance; whole-program accepted <=> separate accepted; in the first order check_package's interface JSON == build_package's interface JSON for every package (and check accepts iff build's typer accepts); linked Go text identical for all orders; stdout and end state of the two Go programs under miniGo equal (Go rejected on both sides is left to C02). Non-trivial = >= 2 library packages and a cross-package generic or trait call and both programs ran; distinct by hash of the files.",
             corpus::project_cases().len()
         )
     }
